@@ -429,3 +429,8 @@ class CatchExceptionDatasetC(ClassContract):
 
 
 CONTRACTS = [BatchDatasetC(), UnbatchDatasetC(), FilterDatasetC(), CatchExceptionDatasetC()]
+
+from contracts.copying import copy_variants  # noqa
+for _c in CONTRACTS:
+    if 'copy' not in _c.methods:
+        _c.methods = dict(_c.methods, copy=copy_variants())  # add_copy
